@@ -1153,7 +1153,26 @@ func (env *Env) evalCall(x *ECall) (Val, error) {
 		if err != nil {
 			return Val{}, err
 		}
+		vc.noteConcrete(t)
 		return Val{Typ: boolT, Ts: []T{Eq(v.Ts[0], vc.E.TypeID(t))}}, nil
+	case "errorsAs":
+		// errorsAs(err, T): errors.As(err, &x) with x of type T succeeds (same uninterpreted function as the model of errors.As)
+		if len(x.Args) != 2 {
+			return Val{}, fmt.Errorf("errorsAs(err, T)")
+		}
+		v, err := env.eval(x.Args[0])
+		if err != nil {
+			return Val{}, err
+		}
+		t, err := vc.E.resolveType(env.pkg, x.Args[1].String())
+		if err != nil {
+			return Val{}, err
+		}
+		if len(v.Ts) != 2 {
+			return Val{}, fmt.Errorf("errorsAs: not an interface value")
+		}
+		okT, _ := vc.errorsAsTerms(v, t)
+		return Val{Typ: boolT, Ts: []T{okT}}, nil
 	case "implements":
 		// implements(iface, T): the (non-nil) dynamic type of the interface value implements interface type T,
 		// i.e. the Go type assertion iface.(T) succeeds
@@ -1172,6 +1191,7 @@ func (env *Env) evalCall(x *ECall) (Val, error) {
 			return Val{}, fmt.Errorf("implements: not an interface value")
 		}
 		vc.declareFun("gv_implements", []string{SortBV(64), SortBV(64)}, SortBool)
+		vc.noteIface(t)
 		return Val{Typ: boolT, Ts: []T{And(Not(Eq(v.Ts[0], BV(0, 64))), app("gv_implements", v.Ts[0], vc.E.TypeID(t)))}}, nil
 	case "sameArray":
 		// sameArray(a, b): the two slices share their backing array
